@@ -62,14 +62,26 @@ func analyseLine(text string) *lineInfo {
 		if strings.HasPrefix(body, "(=> ") {
 			inner := body[len("(=> "):]
 			k := sexprEnd(inner, 0)
-			concl := inner[k:]
+			concl := strings.TrimSpace(inner[k:])
 			li.trig = symbolsOf(concl)
+			if p := strings.LastIndex(concl, ":pattern "); p >= 0 && strings.HasPrefix(concl, "(forall") {
+				if ps := symbolsOf(concl[p:]); len(ps) > 0 {
+					li.trig = ps
+				}
+			}
 			if len(li.trig) == 0 {
 				li.control = true
 				li.trig = li.all
 			}
 		} else {
 			li.trig = li.all
+		}
+		// a quantified fact with a pattern is only useful when the pattern's
+		// symbols are relevant
+		if k := strings.LastIndex(body, ":pattern "); k >= 0 && strings.HasPrefix(body, "(forall") {
+			if ps := symbolsOf(body[k:]); len(ps) > 0 {
+				li.trig = ps
+			}
 		}
 		if len(li.all) == 0 {
 			li.kind = 0
@@ -98,7 +110,11 @@ func (vc *VC) slicer() *slicer {
 			first := text[:strings.Index(text, "\n")]
 			f := analyseLine(first)
 			li = &lineInfo{text: text, kind: f.kind, name: f.name, trig: f.trig, all: symbolsOf(text)}
-			if f.kind == 0 || f.kind == 3 {
+			if f.kind == 3 {
+				// a group of assertions (e.g. the contents of a constant map):
+				// kept when any of its symbols is relevant
+				li.kind, li.trig = 3, li.all
+			} else if f.kind == 0 {
 				li.kind = 0
 			}
 		}
